@@ -42,6 +42,9 @@ def cases(tier, seed):
                    others=rnd.choice([0, 0, 1, 2]), fine=rnd.random() < 0.4,
                    pre_store=rnd.random() < 0.25, reuse=rnd.random() < 0.3,
                    again=rnd.choice([None, None, None, 7.0, 20.0]),
+                   # dup_ctx: the query class is negotiated on two contexts with transfer
+                   # syntaxes of different byte order; the query goes over the first
+                   dup_ctx=rnd.random() < 0.15,
                    seed=seed * 100003 + i)
 
 
@@ -158,7 +161,9 @@ def run_case(case):
             # other user negotiates a different one than ours (same context id, other byte
             # order): what is negotiated on one association must stay there
             all_ts = [TSS[k_] for k_ in sorted(TSS)]
-            srv_ts = ([ts] if not case.get('others') else all_ts) if variant != 'c_find' else None
+            dup = bool(case.get('dup_ctx')) and variant != 'c_find' and not pre_store
+            srv_ts = ([ts] if not (case.get('others') or dup) else all_ts) \
+                if variant != 'c_find' else None
             srv = world.make_ae(Srv, 'SRV', 11112, srv_ts, case['smax'])
             srv.timeout = 300
             srv.add_scp(sopclass.qr_find_scp).add_scp(sopclass.modality_work_list_scp)
@@ -194,6 +199,9 @@ def run_case(case):
         got2 = []
         again = case.get('again') if (case['final'] == 'real' and variant != 'c_find'
                                      and not case['delay'] and case['sched'] != 'stall') else None
+        if case.get('dup_ctx') and case['final'] == 'real' and not pre_store and \
+                variant != 'c_find' and not case.get('pipelined'):
+            again = None            # (one query, over the first of the two contexts)
         out = {}
         remote = {'aet': 'SRV', 'address': ADDR[0], 'port': ADDR[1]}
 
@@ -208,7 +216,25 @@ def run_case(case):
                     cli.add_scu(sopclass.qr_find_scu).add_scu(sopclass.modality_work_list_scu)
                     if pre_store:
                         cli.add_scu(sopclass.storage_scu, [CT_STORE])
+                    first_ctx = None
+                    if case.get('dup_ctx') and case['final'] == 'real' and not pre_store:
+                        from pynetdicom2 import asceprovider as _ap
+                        cid = [k for k, c_ in cli.context_def_list.items()
+                               if c_.sop_class == sop][0]
+                        other_ts = rc.IMPLICIT_LE if ts == rc.EXPLICIT_BE else rc.EXPLICIT_BE
+                        nxt = max(cli.context_def_list) + 2
+                        cli.context_def_list[cid] = _ap.PContextDef(cid, sop, [ts])
+                        cli.context_def_list[nxt] = _ap.PContextDef(nxt, sop, [other_ts])
+                        first_ctx = cid
                     with cli.request_association(remote) as assoc:
+                        if first_ctx is not None and first_ctx in assoc.accepted_contexts and \
+                                not case.get('pipelined'):
+                            world.sim.bump('probe.query_over_first_of_two_contexts')
+                            svc = cli.supported_scu[sop]
+                            for d, st in svc(assoc, assoc.accepted_contexts[first_ctx], query, 7):
+                                got.append((d, st))
+                            out['done'] = True
+                            return
                         if pre_store:
                             inst = pydicom.Dataset()
                             inst.SOPClassUID = CT_STORE
